@@ -50,6 +50,11 @@ Proof. now destruct k. Qed.
 Lemma type_mk_inj k z v : scalar v -> av_type v = av_type (mk k z) -> exists b, v = mk k b.
 Proof. destruct k, v; cbn; intros Hs H; try discriminate; try contradiction; eexists; reflexivity. Qed.
 
+Lemma type_mk_inj' k z v : av_type v = av_type (mk k z) -> exists b, v = mk k b.
+Proof. destruct k, v; cbn; intros H; try discriminate; eexists; reflexivity. Qed.
+Lemma exact_scalar v : (match v with VArr _ _ | VRep _ _ | VSpc _ => False | _ => True end) -> scalar v.
+Proof. destruct v; cbn; tauto. Qed.
+
 Lemma range_arg_mk k d s j :
   - 2 ^ 31 <= j < 2 ^ 31 ->
   range_arg (mk k d) (mk k s) j = Some (mk k (wr k (s + j * d))).
@@ -87,11 +92,16 @@ Qed.
 Lemma incsize_scalar v r : scalar v -> incsize (v :: r) = 1.
 Proof. destruct v; cbn; tauto. Qed.
 
+(* a slot of a list of values and arrays of values: a value or an array header *)
+Definition sa (v : av) : Prop := match v with VRep _ _ | VSpc _ => False | _ => True end.
+Lemma scalar_sa v : scalar v -> sa v.
+Proof. destruct v; cbn; tauto. Qed.
+
 Lemma elem_eq_mk k x z r :
-  scalar z ->
+  sa z ->
   elem_eq [mk k x] (z :: r) =
   if av_type (mk k x) =? av_type z then av_eq_single (mk k x) z else Some false.
-Proof. destruct k, z; cbn [scalar]; intros Hs; try contradiction; reflexivity. Qed.
+Proof. destruct k, z; cbn [sa]; intros Hs; try contradiction; reflexivity. Qed.
 
 (* equality of rtosc_arg_vals_eq_single is identity - for floats and doubles
    when they are no NaN and one of the two zeroes does not occur (inrv below;
@@ -174,27 +184,24 @@ Proof.
 Qed.
 
 Lemma elem_eq_exact a0 z r1 r2 :
-  exact a0 -> scalar z ->
+  exact a0 -> sa z ->
   elem_eq (a0 :: r1) (z :: r2) = if av_type a0 =? av_type z then av_eq_single a0 z else Some false.
 Proof. destruct a0, z; cbn; intros H1 H2; try contradiction; reflexivity. Qed.
 
 Section Conv.
 Variable o : popts.
 Variable args : list av.
-Hypothesis Hsc : Forall scalar args.
+Hypothesis Hsc : Forall sa args.
 Hypothesis Hin : Forall inrv args.
 
 Lemma nth_inrv j v : nth_error args j = Some v -> inrv v.
 Proof. intros H. eapply Forall_forall; [exact Hin|]. eapply nth_error_In; exact H. Qed.
 
-Lemma nth_scalar j v : nth_error args j = Some v -> scalar v.
+Lemma nth_scalar j v : nth_error args j = Some v -> sa v.
 Proof. intros H. eapply Forall_forall; [exact Hsc|]. eapply nth_error_In; exact H. Qed.
 
-Lemma incsize_skipn j : incsize (skipn j args) = 1.
-Proof.
-  rewrite skipn_hd. destruct (nth_error args j) eqn:E; [|reflexivity].
-  apply incsize_scalar. eapply nth_scalar; exact E.
-Qed.
+Lemma incsize_skipn j v : nth_error args j = Some v -> scalar v -> incsize (skipn j args) = 1.
+Proof. intros E Hs. rewrite skipn_hd, E. now apply incsize_scalar. Qed.
 
 (* ---- runs with a step ---------------------------------------------------------------- *)
 Section Delta.
@@ -213,8 +220,9 @@ Lemma run_loop_delta fuel size : forall s s' nc',
   exists n, s' = Z.of_nat n /\ nc' = Z.of_nat n /\ (s < n)%nat /\ chained (n - 1).
 Proof.
   induction fuel as [|fuel IH]; intros s s' nc' Hrun Hs Hch; [discriminate|].
-  cbn [run_loop] in Hrun. rewrite skipz_nth, incsize_skipn in Hrun.
+  cbn [run_loop] in Hrun.
   destruct (Hch (s - 1)%nat ltac:(lia)) as (a0 & _ & Ha & _). replace (S (s - 1)) with s in Ha by lia.
+  rewrite skipz_nth, (incsize_skipn s _ Ha ltac:(now destruct k)) in Hrun.
   set (a := wr k (a0 + d)) in *.
   rewrite (skipn_hd args s), Ha, add_mk in Hrun.
   destruct (size <=? Z.of_nat s + 1) eqn:Esz.
@@ -222,10 +230,10 @@ Proof.
   - replace (Z.of_nat s + 1) with (Z.of_nat (S s)) in Hrun by lia. rewrite skipz_nth in Hrun.
     rewrite (skipn_hd args (S s)) in Hrun.
     destruct (nth_error args (S s)) as [z|] eqn:Ez; [|destruct k; discriminate].
-    assert (Hzs : scalar z) by (eapply nth_scalar; exact Ez).
+    assert (Hzs : sa z) by (eapply nth_scalar; exact Ez).
     rewrite (elem_eq_mk k _ z _ Hzs) in Hrun.
     destruct (av_type (mk k (wr k (a + d))) =? av_type z) eqn:Et.
-    + apply Z.eqb_eq in Et. symmetry in Et. destruct (type_mk_inj _ _ _ Hzs Et) as (b & ->).
+    + apply Z.eqb_eq in Et. symmetry in Et. destruct (type_mk_inj' _ _ _ Et) as (b & ->).
       rewrite eq_mk in Hrun. destruct (wr k (a + d) =? b) eqn:Eb.
       * apply Z.eqb_eq in Eb. subst b.
         destruct args as [|h0 t0] eqn:Eargs; [discriminate|]. cbn in Hx0. inversion Hx0; subst h0.
@@ -313,7 +321,8 @@ Lemma run_loop_const fuel size a0 dl : forall s s' nc',
   exists n, s' = Z.of_nat n /\ nc' = Z.of_nat n /\ (s < n)%nat /\ const_run a0 (n - 1).
 Proof.
   induction fuel as [|fuel IH]; intros s s' nc' Hex H0 Hrun Hs Hch; [discriminate|].
-  cbn [run_loop] in Hrun. rewrite skipz_nth, incsize_skipn in Hrun.
+  cbn [run_loop] in Hrun.
+  rewrite skipz_nth, (incsize_skipn s a0 (Hch s (Nat.le_refl s)) ltac:(destruct a0; cbn in Hex |- *; tauto)) in Hrun.
   destruct (size <=? Z.of_nat s + 1) eqn:Esz.
   - inversion Hrun; subst. exists (S s). repeat split; try lia. now replace (S s - 1)%nat with s by lia.
   - replace (Z.of_nat s + 1) with (Z.of_nat (S s)) in Hrun by lia. rewrite skipz_nth in Hrun.
@@ -321,7 +330,7 @@ Proof.
     pose proof H0 as H0'.
     destruct args as [|x rest] eqn:Ea; [discriminate|]. cbn in H0. inversion H0; subst x. rewrite <- Ea in *.
     destruct (nth_error args (S s)) as [z|] eqn:Ez.
-    + assert (Hzs : scalar z) by (eapply nth_scalar; exact Ez).
+    + assert (Hzs : sa z) by (eapply nth_scalar; exact Ez).
       rewrite Ea in Hrun at 1. rewrite (elem_eq_exact a0 z rest _ Hex Hzs) in Hrun.
       destruct (av_type a0 =? av_type z) eqn:Et.
       * destruct (av_eq_single a0 z) as [[|]|] eqn:Eq; [| |discriminate].
@@ -401,8 +410,8 @@ Proof.
     destruct (size <=? 0 + 1); [lia|]. replace (av_type a1 =? ty) with false by (symmetry; now apply Z.eqb_neq). lia.
 Qed.
 
-Theorem range_expand_shape o args size c kk :
-  Forall scalar args -> Forall inrv args -> exact (hd VN args) ->
+Theorem range_expand_shape_sa o args size c kk :
+  Forall sa args -> Forall inrv args -> exact (hd VN args) ->
   Z.of_nat (length args) < 2 ^ 31 ->
   convert_to_range o args size = CYes c kk ->
   exists n, kk = Z.of_nat n /\ (5 <= n <= length args)%nat /\ expand c = Some (firstn n args) /\
@@ -415,13 +424,13 @@ Proof.
   destruct ((size <? 5) || (hd_type args =? 45) || negb (compress o)); [discriminate|].
   destruct (count_common (length args) (hd_type args) args 0 size 0 <? 5) eqn:Ecc; [discriminate|].
   destruct args as [|a0 rest] eqn:Ea; [discriminate|]. cbn [hd] in Hex.
-  assert (Hs0 : scalar a0) by now inversion Hsc.
+  assert (Hs0 : scalar a0) by (apply exact_scalar; exact Hex).
   rewrite (incsize_scalar a0 rest Hs0) in Hc. rewrite <- Ea in *.
   assert (H0 : nth_error args 0 = Some a0) by now rewrite Ea.
   change (skipz 1 args) with (skipn 1 args) in Hc. rewrite (skipn_hd args 1) in Hc.
   destruct (nth_error args 1) as [a1|] eqn:E1;
     [|rewrite Ea in Hc; destruct a0; cbn in Hex; try contradiction; discriminate].
-  assert (Hs1 : scalar a1) by (eapply nth_scalar; [exact Hsc|exact E1]).
+  assert (Hs1 : sa a1) by (eapply nth_scalar; [exact Hsc|exact E1]).
   assert (Hty : av_type a1 = av_type a0).
   { destruct (Z.eq_dec (av_type a1) (av_type a0)) as [E|E]; [exact E|exfalso].
     rewrite Ea in Ecc, E1. destruct rest as [|a1' rest']; [discriminate|]. cbn in E1. inversion E1; subst a1'.
@@ -494,6 +503,19 @@ Proof.
       destruct (Hcl j ltac:(lia)) as (Hnj & Hrj & _). rewrite Hnj. f_equal. f_equal. symmetry. now apply wr_id. }
     right. eexists _, _, _, _. split; [reflexivity|]. split; [apply wr_inr|]. split; [now rewrite Ea|].
     split; [exact Hd0|]. intros j Hj. apply Hcl. lia.
+Qed.
+
+Theorem range_expand_shape o args size c kk :
+  Forall scalar args -> Forall inrv args -> exact (hd VN args) ->
+  Z.of_nat (length args) < 2 ^ 31 ->
+  convert_to_range o args size = CYes c kk ->
+  exists n, kk = Z.of_nat n /\ (5 <= n <= length args)%nat /\ expand c = Some (firstn n args) /\
+    ((exists y, c = [VRep (Z.of_nat n) 0; hd VN args; VSpc y]) /\ firstn n args = repeat (hd VN args) n \/
+     (exists k d x y, c = [VRep (Z.of_nat n) 1; mk k d; mk k x; VSpc y] /\ inr k d /\ hd VN args = mk k x /\ d <> 0 /\
+        forall j, (j < n)%nat -> nth_error args j = Some (mk k (x + Z.of_nat j * d)) /\
+                                 inr k (x + Z.of_nat j * d) /\ inr k (Z.of_nat j * d))).
+Proof.
+  intros Hsc. apply range_expand_shape_sa. eapply Forall_impl; [|exact Hsc]. exact scalar_sa.
 Qed.
 
 Theorem range_expand o args size c kk :
